@@ -1,6 +1,6 @@
 """C17 — server enforces its connection limits (DESIGN.md §4 C17)."""
 import re
-from mirlib import show, Loc
+from mirlib import show, Loc, dnf_holds
 from rules import call_sites, call_locs, agg_sites
 
 SCOPE = ("Decides that the two capacity guards dominate the two growth sites on every path: `clients.insert` only "
@@ -94,6 +94,57 @@ def run(cx):
                 ok = good
         if not ok:
             inst.violation(ia.path, "is_active", "RemoteClient::is_active returns true in a state other than Active")
+
+
+def timers_scheduled(cx, iid):
+    """capacity returns: every entry into a state that only a timer can end (Pending, Closing,
+    Closed) schedules that state's timer event, and the timer's expiry leads to Fin + removal"""
+    R = cx.R
+    with cx.instance(iid, "T2 PAIR", "every transition to Pending/Closing/Closed schedules that state's timer event (so the entry is eventually forgotten)", floor=4) as inst:
+        kinds = {"Closed": ("ClosedTimeout", "server::CLOSED_TIMEOUT_MS"), "Closing": ("ResendDisconnect", "server::DISCONNECT_RESEND_INTERVAL_MS")}
+        n = 0
+        for b in R.all_bodies():
+            if not b.path.startswith("server::Server::"):
+                continue
+            for loc, s2 in b.assigns():
+                if not s2["pl"]["p"]:
+                    continue
+                ps = show(b.place_expr(s2["pl"]))
+                v = show(b.rvalue_expr(s2["rv"]))
+                m = re.match(r"State::(Closed|Closing)\b", v)
+                if not ps.endswith(".state") or not m:
+                    continue
+                n += 1
+                kind, itv = kinds[m.group(1)]
+                pushes = [l for l, t in b.calls("BinaryHeap::push") if re.search(r"arg1\.client_events,Event::new\(.*EventType::%s\{\},add\((arg\d+,%s|%s,arg\d+)\)," % (kind, re.escape(itv), re.escape(itv)), show(b.call_expr(t)))]
+                cx.followed_by(inst, b, [(loc, "state = " + m.group(1))], pushes, "state %s entered without its timer" % m.group(1), "client_events.push(%s at now + %s)" % (kind, itv.split("::")[-1]))
+        syn = R.body("server::Server::handle_handshake_syn")
+        ins = call_sites(syn, "HashMap::insert", r"arg1\.clients")
+        pushes = [l for l, t in syn.calls("BinaryHeap::push") if "EventType::ResendHandshakeSynAck{}" in show(syn.call_expr(t))]
+        cx.preceded_by(inst, syn, ins, pushes, "pending client without handshake timer", "client_events.push(ResendHandshakeSynAck ..)")
+        if n < 3:
+            inst.violation("server::Server", "transitions to Closing/Closed", "fewer transitions to Closing/Closed than counted by hand (anchor)")
+        # expiry of each timer forgets the client: handle_event writes Fin in all three arms
+        he = R.body("server::Server::handle_event")
+        fa = cx.fa(he, kill_fields=False)
+        arms = set()
+        for loc, s2 in he.assigns():
+            if s2["pl"]["p"] and show(he.place_expr(s2["pl"])).endswith(".state") and show(he.rvalue_expr(s2["rv"])).startswith("State::Fin"):
+                for arm, kind in (("Pending", "ResendHandshakeSynAck"), ("Closing", "ResendDisconnect"), ("Closed", "ClosedTimeout")):
+                    g, _ = dnf_holds(fa.at(loc), [[r"is\(.*\.state,%s\)" % arm, r"eq\((EventType::%s\{\},arg2\.kind|arg2\.kind,EventType::%s\{\})\)" % (kind, kind)]])
+                    if g:
+                        arms.add(arm)
+                        inst.site(he, loc, "timer expiry in %s -> Fin" % arm)
+        if arms != {"Pending", "Closing", "Closed"}:
+            inst.violation(he.path, "timer expiry -> Fin", "not every timer expiry forgets its client (found Fin in arms %s)" % sorted(arms))
+
+
+_run_core = run
+
+
+def run(cx):
+    _run_core(cx)
+    timers_scheduled(cx, "C17.d")
 
 
 SELFTEST = [
